@@ -18,6 +18,8 @@ type RunOpts struct {
 	Diff     bool
 	MaxSteps int
 	Thorough bool
+	Shard    int // this run explores shard Shard of Shards (0 = unsharded)
+	Shards   int
 }
 
 type HarnessResult struct {
@@ -42,6 +44,7 @@ type HarnessResult struct {
 	Obs          [][]obsRec             `json:"-"`
 	SamplePCs    []string               `json:"sample_path_conditions,omitempty"`
 	Vacuous      bool                   `json:"vacuous"`
+	Shard        string                 `json:"shard,omitempty"`
 }
 
 func vrtMix(seed uint64, key string) uint64 {
@@ -78,6 +81,7 @@ func RunHarness(ld *Loaded, key, name string, opt RunOpts, stats *SolverStats) *
 	r.pkgPath = ps.path
 	r.wallLimit = opt.Wall
 	r.thorough = opt.Thorough
+	r.shard, r.shards = opt.Shard, opt.Shards
 	r.solver.diffAll = opt.Diff
 	if opt.MaxSteps > 0 {
 		r.maxSteps = opt.MaxSteps
